@@ -241,6 +241,61 @@ func Solve(c *Ctx, o *Obligation, timeoutS int, all bool, dumpDir string) *Solve
 	return res
 }
 
+// lastSexp returns the last top-level s-expression (or atom) of s.
+func lastSexp(s string) string {
+	s = strings.TrimSpace(s)
+	depth := 0
+	start := 0
+	last := s
+	i := 0
+	for i < len(s) {
+		ch := s[i]
+		switch {
+		case ch == '"':
+			j := i + 1
+			for j < len(s) {
+				if s[j] == '"' {
+					if j+1 < len(s) && s[j+1] == '"' {
+						j += 2
+						continue
+					}
+					break
+				}
+				j++
+			}
+			if depth == 0 {
+				last = s[i:min(j+1, len(s))]
+			}
+			i = j + 1
+			start = i
+			continue
+		case ch == '(':
+			if depth == 0 {
+				start = i
+			}
+			depth++
+		case ch == ')':
+			depth--
+			if depth == 0 {
+				last = s[start : i+1]
+				start = i + 1
+			}
+		case ch == ' ' || ch == '\n' || ch == '\t':
+			if depth == 0 {
+				if i > start {
+					last = s[start:i]
+				}
+				start = i + 1
+			}
+		}
+		i++
+	}
+	if depth == 0 && start < len(s) && strings.TrimSpace(s[start:]) != "" {
+		last = strings.TrimSpace(s[start:])
+	}
+	return last
+}
+
 // parseModel extracts (term value) pairs from a get-value answer.
 func parseModel(out string, vars []ModelVar) map[string]string {
 	m := map[string]string{}
@@ -287,9 +342,8 @@ func parseModel(out string, vars []ModelVar) map[string]string {
 			break
 		}
 		inner := strings.TrimSpace(it[1 : len(it)-1])
-		term := vars[idx].Term
-		val := strings.TrimSpace(strings.TrimPrefix(inner, term))
-		m[vars[idx].Name] = val
+		// the answer is "(term value)" with the term echoed in the solver's own syntax: take the last top-level element
+		m[vars[idx].Name] = lastSexp(inner)
 	}
 	return m
 }
